@@ -57,9 +57,21 @@ package sql
 //@   ensures[C04] predicate-is-the-query: (result == nil && old(predfresh(q))) ==> predquery(q, rq)
 
 // ---- C07: keyset pagination
+// a plain errors.New value carries no status code: herodot answers 500 for it (read off the
+// initialiser in internal/persistence/definitions.go; T5/T11)
+//@ globalinv persistence.ErrMalformedPageToken: val != nil && errstatus(val) == 500
+
+//@ func (*internalPagination).parsePageToken
+//@   props C07 C13
+//@   requires p != nil
+//@   modifies p.LastID
+//@   ensures t == "" ==> result == nil && p.LastID == uuid.Nil
+//@   ensures[C07] malformed-token-is-a-client-error: result != nil ==> errstatus(result) >= 400 && errstatus(result) < 500
+
 //@ func internalPaginationFromOptions
 //@   props C07 C13
 //@   modifies nothing
+//@   ensures[C07] malformed-token-is-a-client-error: result1 != nil ==> errstatus(result1) >= 400 && errstatus(result1) < 500
 //@   ensures result0 != nil && fresh(result0)
 //@   ensures[C07] page-size: result0.PerPage == (optsize(opts) == 0 ? 100 : optsize(opts)) && result0.PerPage >= 1
 //@   ensures[C07] first-page: opttoken(opts) == "" ==> result1 == nil && result0.LastID == uuid.Nil
@@ -101,6 +113,7 @@ package sql
 //@   ensures[C07] keyset-shape: err == nil ==> qlimit(sqlQuery) == pagination.PerPage + 1 && qordered(sqlQuery) && qafterset(sqlQuery) && qafter(sqlQuery) == pagination.LastID
 //@   ensures[C06] nid: err == nil ==> qnidset(sqlQuery) && qnid(sqlQuery) == netid(p, now(ctx))
 //@   ensures[C04] lists-what-the-query-selects: err == nil ==> predquery(sqlQuery, query)
+//@   ensures[C07] malformed-token-is-a-client-error: (err != nil && isnil(sqlQuery)) ==> errstatus(err) >= 400 && errstatus(err) < 500
 //@   loop 1 invariant len(internalRes) == $n && (isnil(internalRes) || fresh(internalRes))
 
 //@ func (*Persister).ExistsRelationTuples
